@@ -1176,7 +1176,14 @@ where
 {
     // Check if we have something that resembles an answer.
     let mut question_section = msg.question();
-    let question = question_section.next().expect("section expected")?;
+    let Some(question) = question_section.next() else {
+        // A response without a question cannot be matched against an
+        // answer. The upstream is not required to echo the question (a
+        // custom SendRequest implementation may not), so do not panic.
+        // Treat the response as broken, which means it is not cached.
+        return Ok(NoErrorType::NoErrorWeird);
+    };
+    let question = question?;
     let qtype = question.qtype();
     let qclass = question.qclass();
 
